@@ -464,6 +464,17 @@ class SelectedMailbox:
         new_recent = (after.recent - before.recent)
         new_flags = (after.flags - before.flags - self._silenced_flags)
         new_sflags = (after.sflags - before.sflags - self._silenced_sflags)
+        # A silenced change that did not come out as the client assumes, e.g.
+        # because another session changed the flags back at the same time,
+        # is reported even if the flags are again what they were before.
+        actual_flags = dict(after.flags)
+        actual_sflags = dict(after.sflags)
+        new_flags |= {(uid, actual_flags[uid])
+                      for uid, flags in self._silenced_flags
+                      if actual_flags.get(uid, flags) != flags}
+        new_sflags |= {(uid, actual_sflags[uid])
+                       for uid, flags in self._silenced_sflags
+                       if actual_sflags.get(uid, flags) != flags}
         fetch_uids = chain(new_recent,
                            (uid for uid, _ in new_flags),
                            (uid for uid, _ in new_sflags))
